@@ -37,7 +37,7 @@ def table_rule(ctx, key, path, atoms, spec, abbr=(), outcome=None, skip=None):
     return check_table(key, b, w.paths_split, atoms, spec, outcome or (lambda p: ret(p, abbr)), abbr, skip)
 
 
-@rule("LEAF-BOL", ["C12", "C01"], floor=5)
+@rule("LEAF-BOL", ["C12", "C01"], floor=2)
 def leaf_bol(ctx):
     """'^' yields once(position) iff position==0 or (m and search[position-1]==LF and position<len), else nothing."""
     atoms = {"at0": "eq(a3, 0)", "m": ML, "after_nl": "ReMatcher::is_new_line(a2, sub(a3, 1))", "inside": INB}
@@ -48,7 +48,7 @@ def leaf_bol(ctx):
     return table_rule(ctx, "Bol", BOL, atoms, spec)
 
 
-@rule("LEAF-EOL", ["C12", "C01"], floor=5)
+@rule("LEAF-EOL", ["C12", "C01"], floor=2)
 def leaf_eol(ctx):
     """'$' yields once(position) iff the input is empty, position>=len, or (m and search[position]==LF)."""
     atoms = {"empty": "eq(0, len(a2.search))", "inside": INB, "m": ML, "at_nl": "ReMatcher::is_new_line(a2, a3)"}
@@ -94,7 +94,7 @@ def newline_const(ctx):
     return out
 
 
-@rule("CLASS-MEMBERSHIP", ["C09", "C01"], floor=3)
+@rule("CLASS-MEMBERSHIP", ["C09", "C01"], floor=2)
 def class_membership(ctx):
     """CharClass yields once(position+1) iff position<len and the class contains search[position]."""
     atoms = {"inside": INB, "member": "CharacterClass::contains(a1.character_class, a2.search[a3])"}
@@ -111,7 +111,7 @@ def leaf_nothing(ctx):
     return table_rule(ctx, "Nothing", NOTHING, {}, lambda v: "once(a3)")
 
 
-@rule("LEAF-ENDPROGRAM", ["C01", "C02"], floor=3)
+@rule("LEAF-ENDPROGRAM", ["C01", "C02"], floor=2)
 def leaf_end(ctx):
     """EndProgram succeeds at position unless the match is anchored and position<len."""
     atoms = {"anchored": "ReMatcher::anchored_match(a2)", "inside": INB}
@@ -130,7 +130,7 @@ ATOM_ABBR = (
 )
 
 
-@rule("LITERAL-ATOM", ["C13", "C11", "C01"], floor=7)
+@rule("LITERAL-ATOM", ["C13", "C11", "C01"], floor=3)
 def literal_atom(ctx):
     """Atom: empty if the input is shorter than position+len; otherwise the chars are compared pairwise
     (equal_case_blind iff flag i, == otherwise), a mismatch gives empty, exhaustion gives once(position+len)."""
@@ -191,7 +191,7 @@ def _abbr_iter(s, abbr):
     return s
 
 
-@rule("LEAF-BACKREF", ["C19"], floor=8)
+@rule("LEAF-BACKREF", ["C19"], floor=3)
 def leaf_backref(ctx):
     """Back-reference: an unset group matches the empty string (once(position)); an empty group likewise;
     otherwise a copy of search[s..e] is compared char by char under the flag's comparator."""
@@ -251,7 +251,7 @@ def leaf_backref(ctx):
     return check_table("BackReference", b, paths, atoms, spec, outcome)
 
 
-@rule("EQCASE-TABLE", ["C11", "C19", "C13", "C01"], floor=3)
+@rule("EQCASE-TABLE", ["C11", "C19", "C13", "C01"], floor=2)
 def eqcase_table(ctx):
     """equal_case_blind(a,b) = a==b or f(a)==f(b) with the same simple case mapping f on both sides."""
     b = ctx.body("re_matcher::ReMatcher::equal_case_blind")
